@@ -158,6 +158,11 @@ func newKeyCodec(kt string, nk int, bf uint, rng *rand.Rand, userLayers []int, m
 		for i, v := range vs {
 			switch kt {
 			case "int":
+				if wide && i < len(vs)/2 {
+					v -= 1 << 62
+				} else if wide {
+					v += 1 << 62
+				}
 				c.keys = append(c.keys, int(v))
 				c.layers = append(c.layers, intLayerRef(v, bf))
 			case "int64":
@@ -270,7 +275,13 @@ type valCodec struct {
 	zero interface{}
 }
 
-var valTypes = []string{"int", "string", "bytes", "intslice", "struct"}
+// PV is a comparable struct value that contains a pointer (equal values are different allocations).
+type PV struct {
+	X int
+	P *string
+}
+
+var valTypes = []string{"int", "string", "bytes", "intslice", "struct", "ptrstruct"}
 
 func newValCodec(vt string) *valCodec {
 	c := &valCodec{name: vt}
@@ -285,6 +296,8 @@ func newValCodec(vt string) *valCodec {
 		c.zero = []int{}
 	case "struct":
 		c.zero = SV{}
+	case "ptrstruct":
+		c.zero = PV{}
 	default:
 		panic("unknown value type " + vt)
 	}
@@ -303,6 +316,9 @@ func (c *valCodec) Val(rank int) interface{} {
 		return []int{rank, -rank}
 	case "struct":
 		return SV{X: rank, Y: fmt.Sprintf("y%d", rank)}
+	case "ptrstruct":
+		p := fmt.Sprintf("p%d", rank) // a fresh allocation every time
+		return PV{X: rank, P: &p}
 	}
 	panic("val")
 }
@@ -326,6 +342,10 @@ func (c *valCodec) Rank(v interface{}) int {
 		}
 	case SV:
 		if x.Y == fmt.Sprintf("y%d", x.X) {
+			return x.X
+		}
+	case PV:
+		if x.P != nil && *x.P == fmt.Sprintf("p%d", x.X) {
 			return x.X
 		}
 	}
